@@ -536,7 +536,7 @@ func (s *Sim) absorb() {
 		switch ev.Class {
 		case "dial", "net", "exec":
 			ev.Due = now + s.LatTable[s.Sched.Draw(len(s.LatTable))]
-		case "unlocked", "start":
+		case "unlocked", "start", "done":
 			// a goroutine that has just released a lock (or has just been created) may be
 			// descheduled for a while before it goes on: usually not, sometimes for milliseconds
 			ev.Due = now + []time.Duration{0, 0, 0, 0, 0, 0, 0, 0, 0, 0, time.Millisecond, 30 * time.Millisecond}[s.Sched.Draw(12)]
@@ -793,9 +793,13 @@ type MutexCore struct {
 	owner   *G
 	readers int
 	holdSeq int
+	sim     *Sim // the run that named it: a lock of a long-lived object starts every run afresh
 }
 
 func (s *Sim) mutexName(m *MutexCore) string {
+	if m.sim != s {
+		m.sim, m.name, m.owner, m.readers = s, "", nil, 0
+	}
 	if m.name == "" {
 		m.name = "mu" + strconv.Itoa(s.mutexSeq)
 		s.mutexSeq++
@@ -806,10 +810,8 @@ func (s *Sim) mutexName(m *MutexCore) string {
 func (s *Sim) LockMutex(m *MutexCore, read bool) {
 	g := s.G()
 	if s.draining.Load() {
-		// The run is over and its verdict recorded; goroutines are only being unwound. Nothing
-		// grants mutual exclusion any more, so a goroutine asking for a lock ends here (its
-		// deferred calls still run) instead of entering a critical section next to another.
-		runtime.Goexit()
+		s.lockWhileDraining(m, g, read)
+		return
 	}
 	s.mu.Lock()
 	name := s.mutexName(m)
@@ -844,8 +846,34 @@ func (s *Sim) LockMutex(m *MutexCore, read bool) {
 		},
 	})
 	if !granted {
-		runtime.Goexit() // released by the drain, not by a grant: see above
+		// released by the drain, not by a grant
+		s.lockWhileDraining(m, g, read)
 	}
+}
+
+// lockWhileDraining: the run is over and its verdict recorded; goroutines are only being unwound,
+// nobody schedules lock grants any more. Mutual exclusion still holds (clean-up code of
+// long-lived objects, such as singleflight's bookkeeping, relies on it, and the race detector
+// watches): the lock is taken as soon as it is free, polling on the virtual clock. A goroutine
+// that cannot get it within a long while ends (its deferred calls still run).
+func (s *Sim) lockWhileDraining(m *MutexCore, g *G, read bool) {
+	for i := 0; i < 5000; i++ {
+		s.mu.Lock()
+		s.mutexName(m)
+		if m.owner == nil && (read || m.readers == 0) {
+			if read {
+				m.readers++
+			} else {
+				m.owner = g
+			}
+			g.owned++
+			s.mu.Unlock()
+			return
+		}
+		s.mu.Unlock()
+		time.Sleep(time.Millisecond)
+	}
+	runtime.Goexit()
 }
 
 func (s *Sim) TryLockMutex(m *MutexCore) bool {
@@ -863,6 +891,18 @@ func (s *Sim) TryLockMutex(m *MutexCore) bool {
 
 func (s *Sim) UnlockMutex(m *MutexCore, read bool) {
 	if s.draining.Load() {
+		// the run is being unwound: give the lock back (a lock of a long-lived object, such as
+		// the response cache, must not stay owned into the next run) without complaints
+		s.mu.Lock()
+		if read {
+			if m.readers > 0 {
+				m.readers--
+			}
+		} else if m.owner != nil {
+			m.owner.owned--
+			m.owner = nil
+		}
+		s.mu.Unlock()
 		return
 	}
 	s.mu.Lock()
